@@ -166,6 +166,7 @@ impl<'a> PrettyPrinter<'a> {
         let ctx = ctx.with_mode(Mode::CodeCont);
 
         let is_single_simple = is_unnamed
+            && !self.attr_store.has_comment(params.to_untyped())
             && is_only_one_and(params.children(), |it| {
                 matches!(
                     *it,
